@@ -13,7 +13,8 @@ tree; exit 1 is a false alarm, exit 2 a rule that pinned the text instead of the
   T5 merge-ifs     if a: (if b: X)  ->  if a and b: X        (no else on either)
   T6 split-and     if a and b: X    ->  if a: (if b: X)      (no else)
   T7 temp-return   return <expr>    ->  _rv = <expr>; return _rv
-  T8 elif-to-else  (no-op on the AST; covered by T0)  -- not listed
+  T8 expand-in     x in (A, B) -> x == A or x == B
+  T9 negate-eq     a != b -> not (a == b), a is not b -> not (a is b), a not in b -> not (a in b)
 
 Usage: tools/metamorph.py [T1 T3 ...] [--tier quick|thorough|both] [--props C01,C07] [--bisect]
 The transformed trees live in a scratch directory under $TMPDIR and are removed afterwards.
@@ -188,6 +189,33 @@ class RenameLocals(ast.NodeTransformer):
     visit_AsyncFunctionDef = visit_FunctionDef
 
 
+class ExpandIn(ast.NodeTransformer):
+    """x in (A, B) -> x == A or x == B ; x not in (A, B) -> x != A and x != B   (x a plain name/attribute chain,
+    at most 3 constant-like alternatives)"""
+
+    def visit_Compare(self, node):
+        self.generic_visit(node)
+        if len(node.ops) == 1 and isinstance(node.ops[0], (ast.In, ast.NotIn)) and isinstance(node.comparators[0], (ast.Tuple, ast.List, ast.Set)):
+            elts = node.comparators[0].elts
+            simple = isinstance(node.left, (ast.Name, ast.Attribute)) and 2 <= len(elts) <= 3 and all(isinstance(e, (ast.Attribute, ast.Constant, ast.Name)) for e in elts)
+            if simple:
+                pos = isinstance(node.ops[0], ast.In)
+                parts = [ast.Compare(left=copy.deepcopy(node.left), ops=[ast.Eq() if pos else ast.NotEq()], comparators=[e]) for e in elts]
+                return ast.BoolOp(op=ast.Or() if pos else ast.And(), values=parts)
+        return node
+
+
+class NegateEq(ast.NodeTransformer):
+    """a != b -> not (a == b);  a is not b -> not (a is b);  a not in b -> not (a in b)   (exact negations only)"""
+    FLIP = {ast.NotEq: ast.Eq, ast.IsNot: ast.Is, ast.NotIn: ast.In}
+
+    def visit_Compare(self, node):
+        self.generic_visit(node)
+        if len(node.ops) == 1 and type(node.ops[0]) in self.FLIP:
+            return ast.UnaryOp(op=ast.Not(), operand=ast.Compare(left=node.left, ops=[self.FLIP[type(node.ops[0])]()], comparators=node.comparators))
+        return node
+
+
 TRANSFORMS = {
     "T0": ("reformat", None),
     "T1": ("swap-compare", SwapCompare),
@@ -197,6 +225,8 @@ TRANSFORMS = {
     "T5": ("merge-ifs", MergeIfs),
     "T6": ("split-and", SplitAnd),
     "T7": ("temp-return", TempReturn),
+    "T8": ("expand-in-tuple", ExpandIn),
+    "T9": ("negate-eq", NegateEq),
 }
 
 
